@@ -165,7 +165,7 @@ pub fn lockstep(emu: &mut Emu, prog: &Prog, opts: &LsOpts, ctl: &mut dyn FnMut(&
                 for (i, b) in bytes.iter().enumerate() {
                     let aa = a.wrapping_add(i as u32);
                     s.poke(aa, *b);
-                    raw_set(&mut emu.cpu.bus, aa, *b);
+                    emu.set_byte(aa, *b);
                     touched.insert(aa);
                     extra_patched.insert(aa);
                 }
